@@ -83,5 +83,12 @@ def run(ctx):
     n_cv = chunk_var(ctx, prog)
     ctx.require(n_cv >= 50, 'only %d chunk loops with a min (capacity, request) piece length found' % n_cv)
 
+    ctx.rule('HOOK-SAVE', 'a wrapper never saves itself as the function it wraps: every `B->f = psf->slot ; psf->slot = W` (dither, interleave) either is guarded by `psf->slot != W` or sits in a function '
+             'that returns at once when its backup object already exists, and no earlier install of W in the same function reaches the save - otherwise the next read / write through the slot '
+             'calls W -> B->f = W -> ... and never returns', floor=8)
+    from engine.hooksave import hook_save
+    n_hs = hook_save(ctx, prog)
+    ctx.require(n_hs >= 8, 'only %d save-and-wrap sites found' % n_hs)
+
     from engine.run import borrow
     borrow(ctx, 'C03', ['TABLE-INDEX'], 'a write call whose sample value steers a table subscript outside the table reads memory outside anything the caller supplied (G.711 float encoders)')
